@@ -400,6 +400,32 @@ pub fn generate(rng: &mut Rng, thorough: bool) -> Vec<Case> {
         s.extend(b"abc");
         cs.push(Case::new(501, vec![b2a(&s)], "huge-string-length"));
     }
+    // declared string lengths at every power of two (and its neighbours), Huffman bit on and off, in the
+    // three places a string can stand: literal name, value after a static name reference, value after a
+    // literal name -- the decoder must answer with an error whatever arithmetic it does on the length
+    for k in 3..64u32 {
+        for v in [(1u64 << k) - 1, 1u64 << k, (1u64 << k) + 1, (1u64 << k) + (1u64 << (k - 1))] {
+            for h in [0u64, 1] {
+                // literal field line with literal name: 001 N H len(3+)
+                let mut b = vec![0u8, 0];
+                b.extend(raw_int(3, 4 | h, v));
+                b.extend(b"abc");
+                cs.push(Case::new(501, vec![b2a(&b)], "string-length-pow2-name"));
+                if k % 4 == 1 || v == 1u64 << k {
+                    // literal with static name reference (index 1): value H len(7+)
+                    let mut b = vec![0u8, 0, 0x51];
+                    b.extend(raw_int(7, h, v));
+                    b.extend(b"abc");
+                    cs.push(Case::new(501, vec![b2a(&b)], "string-length-pow2-value"));
+                    // literal name 'a', then the value
+                    let mut b = vec![0u8, 0, 0x21, 0x61];
+                    b.extend(raw_int(7, h, v));
+                    b.extend(b"abc");
+                    cs.push(Case::new(501, vec![b2a(&b)], "string-length-pow2-value2"));
+                }
+            }
+        }
+    }
     // string forms
     for (name, val) in [("x", "y"), ("origin", "https://example.com"), ("a\u{e9}", "\u{20ac}"), ("", "")] {
         for hname in [false, true] {
